@@ -6,6 +6,26 @@ symbolically with the same evaluator as the code under verification. Only the Py
 supported by pyvc may be used here."""
 import base64
 import json
+from urllib.parse import parse_qs
+
+
+def recursive(**kw):
+    """Marks a recursive spec function (natively: identity). The verifier treats it as an
+    uninterpreted function of its arguments and of the heap fields it `reads`, unfolded once per
+    call site."""
+    def deco(f):
+        return f
+    return deco
+
+
+
+def opaque(**kw):
+    """Marks a spec predicate that the verifier keeps folded (an uninterpreted function of its
+    arguments) and unfolds once at each call site outside quantifiers. Natively: identity."""
+    def deco(f):
+        return f
+    return deco
+
 
 
 # --- C01 ---------------------------------------------------------------------------------------
@@ -130,3 +150,66 @@ def sid_of(r12, c):
     """The session id built from 12 CSPRNG bytes and the 24-bit counter value c."""
     return base64.b64encode(r12 + c.to_bytes(3, 'big')).decode('utf-8').replace(
         '/', '_').replace('+', '-')
+
+
+# --- C02 ---------------------------------------------------------------------------------------
+
+def implies(a, b):
+    return (not a) or b
+
+
+def forall(f, lo, hi):
+    for k in range(lo, hi):
+        if not f(k):
+            return False
+    return True
+
+
+def exists(f, lo, hi):
+    for k in range(lo, hi):
+        if f(k):
+            return True
+    return False
+
+
+def wire1(p):
+    """Text-channel encoding of packet object p."""
+    return wire(p.packet_type, p.data, True)
+
+
+@recursive(returns='str', reads=['Packet.packet_type', 'Packet.data'])
+def payload_text(packets, n):
+    """The text-channel encodings of the first n packets joined by single U+001E separators."""
+    if n <= 0:
+        return ''
+    if n == 1:
+        return wire1(packets[0])
+    return payload_text(packets, n - 1) + '\x1e' + wire1(packets[n - 1])
+
+
+@opaque(returns='bool')
+def packet_wf(t, d, binary, cache):
+    return api_payload(t, d) and binary == is_bin(d) and cache_ok(cache, t, d)
+
+
+def packet_ok(p):
+    """What Packet.encode requires of a packet object (established by Packet.__init__ for the
+    payloads the API accepts)."""
+    return packet_wf(p.packet_type, p.data, p.binary, p.encode_cache)
+
+
+def payload_body(s):
+    """The text that is split into packets: the 'd' field of a form-encoded JSONP POST body."""
+    if s.startswith('d='):
+        return parse_qs(s)['d'][0]
+    return s
+
+
+@opaque(returns='bool')
+def decoded_as(binary, t, d, cache, e):
+    return binary == dec_binary(e) and t == dec_type(e) and d == dec_data(e) and cache is None
+
+
+def packet_is(p, e):
+    """Packet object p holds exactly what encoded packet e decodes to."""
+    return decoded_as(p.binary, p.packet_type, p.data, p.encode_cache, e)
